@@ -307,9 +307,9 @@ def _on_alarm(signum, frame):
 OP_TIMEOUT_S = 25      # a call that does not return is recorded as ('err', 'Hang') - data for the oracle
 
 
-def execute(sf, ops, passive):
+def execute(sf, ops, passive, warn_mode="ignore"):
     import signal
-    warnings.simplefilter("ignore")
+    warnings.simplefilter(warn_mode)
     signal.signal(signal.SIGALRM, _on_alarm)
     H = {}
     log = []
@@ -476,9 +476,10 @@ class Verifier:
         self.presets = presets
         self.import_table = import_table
 
-    def verify(self, ops, log, probes=None, second=True):
+    def verify(self, ops, log, probes=None, second=True, warn_mode="ignore"):
         """-> list of Violation, in history order."""
         P = probes if probes is not None else {}
+        self._warn_mode = warn_mode
 
         def probe(name, n=1):
             P[name] = P.get(name, 0) + n
@@ -495,9 +496,9 @@ class Verifier:
         by_id = {op.get("id", i): op["op"] for i, op in enumerate(ops)}
 
         def ask(K, call):
-            a = self.oracle.query(K, call)
+            a = self.oracle.query(K, call, warn_mode)
             if self.oracle2 is not None and second:
-                b = self.oracle2.query(K, call)
+                b = self.oracle2.query(K, call, warn_mode)
                 if a[:2] != b[:2]:
                     out.append(Violation("oracles_agree", idx, {"call": list(call), "a": a[:2], "b": b[:2]}))
             return a
@@ -680,7 +681,7 @@ class Verifier:
         visible on this query?  (Costs one oracle query; only right after a change.)"""
         if model.changes == 0 or since_change > 3 or prev_src == model.src:
             return
-        old = self.oracle.query(prev_src, call)
+        old = self.oracle.query(prev_src, call, self._warn_mode)
         if old[:2] != want[:2]:
             probe("discriminating_query")
             if (old[0] == "err") != (want[0] == "err"):
